@@ -877,6 +877,14 @@ func (h *NtfnsHandler) asyncImport(walletId string) (finish bool, err error) {
 		}
 		allBalances := map[string]massutil.Amount{addrmgr.Name(): addrMgrBalance}
 
+		// the rescan reads the node's chain directly: if the node has already reorganised
+		// away from the handler's tip, the records written so far belong to the old branch.
+		// Wait until the handler (suspended right now) has processed that reorganisation.
+		sha, err := fetcher.FetchBlockShaByHeight(h.bestBlock.Height)
+		if err != nil || sha == nil || *sha != h.bestBlock.Hash {
+			return ErrImportingContinuable
+		}
+
 		stop = ws.SyncedHeight + 1000
 		if stop > h.bestBlock.Height {
 			stop = h.bestBlock.Height
